@@ -446,6 +446,39 @@ fn run_history(case: &[u8], allow_threads: bool, allow_big: bool) -> Result<(boo
                     }
                     t
                 });
+                // first: a small later-document value from another deserializer, then a large later-document value
+                // (above the thread-local node buffer) with the same member names; the small one is dropped
+                // before the large one is read
+                {
+                    static BIG: std::sync::OnceLock<String> = std::sync::OnceLock::new();
+                    let bigtext = BIG.get_or_init(|| {
+                        let mut one = String::from("0 [");
+                        for i in 0..16_000 {
+                            if i > 0 {
+                                one.push(',');
+                            }
+                            one.push_str("{\"k\":[1,2],\"s\":\"abcdefgh\"}");
+                        }
+                        one.push(']');
+                        one
+                    });
+                    let mut small_de = Deserializer::from_str("0 {\"k\":[1,2],\"s\":\"abcdefgh\",\"id\":7}");
+                    let _z: Value = small_de.deserialize().unwrap();
+                    let small: Value = small_de.deserialize().unwrap();
+                    let mut big_de = Deserializer::from_str(bigtext);
+                    let _z: Value = big_de.deserialize().unwrap();
+                    let big: Value = big_de.deserialize().map_err(|e| Fail::new("C16/rejects-valid", format!("large later document: {e}")))?;
+                    ensure!(dump(&small) == "{\"id\":u7,\"k\":[u1,u2],\"s\":\"abcdefgh\"}", "C16/holder-corrupted/large-later-document", "the small value reads {}", trunc(&dump(&small), 100));
+                    drop(small);
+                    drop(small_de);
+                    let junk: Vec<Vec<u8>> = (0..8).map(|i| vec![0x5a; 100 + i * 40]).collect();
+                    for i in [0usize, 1, 8_000, 15_999] {
+                        ensure!(dump(&big[i]) == "{\"k\":[u1,u2],\"s\":\"abcdefgh\"}", "C16/holder-corrupted/large-later-document", "element {i} of a large later-document value reads {} after an earlier value of another deserializer was dropped", trunc(&dump(&big[i]), 100));
+                    }
+                    drop(junk);
+                    drop(big_de);
+                    ensure!(big.as_array().map(|a| a.len()) == Some(16_000) && dump(&big[15_999]) == "{\"k\":[u1,u2],\"s\":\"abcdefgh\"}", "C16/holder-corrupted/large-later-document", "a large later-document value reads wrong after its deserializer was dropped");
+                }
                 let mut de = Deserializer::from_str(text);
                 let _z: Value = de.deserialize().unwrap();
                 let mut kept: Option<Value> = None;
